@@ -268,7 +268,9 @@ impl WorldB {
         // ---- classification by the model, before the call ----
         let mut authentic_first = false;
         let mut handshake_ok = false;
-        if !bogus && true_src {
+        // session traffic is authentic for the session that holds its keys, whoever carries it to that session's address
+        // (a relayed handshake can have bound the session to another address than the client's own)
+        if !bogus {
             if let (Some(id), Producer::Client { .. }) = (sess_id, producer) {
                 // a session is identified by its keys: traffic of any client object holding the session's token, from its address
                 let s = &self.sessions[&id];
@@ -278,9 +280,12 @@ impl WorldB {
                     let other_session = self.ledger[ix].accepted_in.map(|n| n != s.sess_no).unwrap_or(false);
                     authentic_first = in_window && !other_session;
                 }
-            } else if sess_id.is_none() && matches!(ptype, T_REQUEST | T_RESPONSE) {
-                handshake_ok = true;
             }
+        }
+        // a connect token is not bound to an address until it is first presented, so whoever relays genuine handshake
+        // packets first (from whatever address) addresses a legitimate handshake; C05 judges the resulting connection
+        if !bogus && sess_id.is_none() && matches!(ptype, T_REQUEST | T_RESPONSE) && matches!(producer, Producer::Client { .. }) {
+            handshake_ok = true;
         }
         // adversary-made but cryptographically valid material (its own tokens) is handled as handshake/session traffic of that token
         if let Producer::Adversary = producer {
@@ -328,7 +333,12 @@ impl WorldB {
         let snap_after = self.server_snap();
 
         // ---- C07: a datagram that is not authentic for the session it addresses changes nothing observable ----
-        if expect_inert {
+        // (not judged for datagrams sealed under the keys of a session whose keys the adversary holds too: what that session's
+        // window has seen cannot be modelled once the key holder itself injects traffic)
+        let unmodellable = !bogus && sess_id.map(|id| self.sessions[&id].rx_taint && Some(self.sessions[&id].tid) == rec_tid).unwrap_or(false);
+        if expect_inert && unmodellable {
+            obs.count("oracle.C07.skipped_adversary_holds_session_keys");
+        } else if expect_inert {
             obs.count("oracle.C07.inert");
             let kind = match &res {
                 Res::Payload { .. } => Some("payload-surfaced"),
